@@ -482,4 +482,71 @@ def rule_schema(ctx):
     return r
 
 
-RULES = [rule_fpdet, rule_fpcov, rule_fppos, rule_policy, rule_schema]
+def rule_memkey(ctx):
+    """The store behind the reusable optimizers keeps entries in a memory dict in
+    front of the directory.  Writer and readers (``__setitem__``, ``__getitem__``,
+    ``__contains__``) must address that dict with the key in the *same* form: either
+    all before the key is normalised to a tuple or all after - decided by which
+    definitions of the key variable reach each access."""
+    r = RuleResult("C14-MEMKEY", "the memory layer of the store is addressed with one key form", 3)
+    dd = ctx.p.cls(C.UTILS, "DiskDict")
+    forms = {}
+    for name in ("__setitem__", "__getitem__", "__contains__", "__delitem__"):
+        f = dd.methods.get(name)
+        if f is None:
+            continue
+        fl = ctx.flow(f)
+        kname = f.positional[1] if len(f.positional) > 1 else None
+        for n in walk_local(f.node):
+            keyexpr = None
+            if isinstance(n, ast.Subscript) and C.unparse(n.value).endswith("._mem_cache"):
+                keyexpr = n.slice
+            elif isinstance(n, ast.Compare) and len(n.ops) == 1 and isinstance(n.ops[0], (ast.In, ast.NotIn)) \
+                    and C.unparse(n.comparators[0]).endswith("._mem_cache"):
+                keyexpr = n.left
+            elif isinstance(n, ast.Call) and isinstance(n.func, ast.Attribute) and \
+                    n.func.attr in ("get", "pop", "setdefault") and \
+                    C.unparse(n.func.value).endswith("._mem_cache") and n.args:
+                keyexpr = n.args[0]
+            if keyexpr is None:
+                continue
+            if isinstance(n, ast.Subscript) and isinstance(n.ctx, ast.Store) and name != "__setitem__":
+                # a reader refilling the memory layer from disk: a miss under the other
+                # form only costs a reload, the entry is still found
+                continue
+            if not (isinstance(keyexpr, ast.Name) and keyexpr.id == kname):
+                forms.setdefault("other", []).append((f, n, C.unparse(keyexpr)))
+                continue
+            at = fl.node_of_expr(n)
+            kinds = {("raw" if d.kind == "param" else "normalised")
+                     for d in fl.defs_reaching(kname, at)}
+            form = "raw" if kinds == {"raw"} else ("normalised" if kinds == {"normalised"} else "mixed")
+            forms.setdefault(form, []).append((f, n, form))
+    C.require(sum(len(v) for v in forms.values()) >= 3, "accesses to DiskDict._mem_cache not recognised")
+    majority = max(forms, key=lambda k: len(forms[k]))
+    for form, sites in sorted(forms.items()):
+        for f, n, _ in sites:
+            key = ctx.key(f, "C14-MEMKEY")
+            if form == majority and form != "mixed":
+                r.ok(key, C.loc(f, n), f"memory layer addressed with the {form} key")
+            else:
+                r.violation(key, C.loc(f, n), f"{f.name} addresses the memory layer with the {form} key "
+                            f"while the other accessors use the {majority} key: an entry stored under "
+                            "one form is never found under the other (plain-string keys, i.e. "
+                            "directory_split=False), so stored contractions are searched again and "
+                            "'improved' overwrites lose their reference")
+    return r
+
+
+def rule_ownresult(ctx):
+    """Shared with C16-FRESH (reusable wrappers only): the tree handed back as
+    'searched' and the record stored under the fingerprint were found for *this*
+    contraction only if the sub-optimizer that ran is fresh or carries no result."""
+    from .c16 import rule_fresh as src
+
+    return C.reuse_rule(ctx, src, "C16-FRESH", "C14-OWNRESULT",
+                        "the stored record comes from a search of the queried contraction",
+                        lambda i: "Reusable" in i.construct, 2)
+
+
+RULES = [rule_fpdet, rule_fpcov, rule_fppos, rule_policy, rule_schema, rule_memkey, rule_ownresult]
